@@ -99,6 +99,8 @@ type HarnessRun struct {
 	catches    []*catchRec
 	pruneForks bool
 	noMerge    bool
+	enumFn     *ssa.Function // path enumeration restricted to the frames of this function (vLoopStep)
+	loopOut    map[string]Value
 	stopOnTaint bool
 	invPairs   [][2]*Term
 	invMod     *big.Int
@@ -482,6 +484,128 @@ func init() {
 			o := resolveFn(args[0])
 			delete(e.replace, o)
 			return nil
+		},
+		// vLoopStep(fn, nargs, args..., "phiName", value, ...) executes ONE iteration of the (first) loop of fn
+		// from an arbitrary state: the frame is created with the given arguments, control starts at the loop
+		// header with the header phis set to the given values, and stops when the header is reached again
+		// (result 1; the new phi values are read with vLoopOutInt / vLoopOutBool) or when fn returns (result 0).
+		// Branches in fn's own frame are explored path by path (the harness is re-executed per path); callees
+		// fork and merge as usual.  The entry block of fn must not define values used inside the loop.
+		"vLoopStep": func(e *Engine, fr *Frame, s *State, f *ssa.Function, args []Value, pos string) Value {
+			fn := resolveFn(args[0])
+			if fn == nil || fn.Blocks == nil {
+				panic(unsupported("vLoopStep needs a function with a body at %s", pos))
+			}
+			nargs := constInt(args[1], "argument count")
+			vs := e.variadic(fr, s, args[2], pos)
+			un := func(v Value) Value {
+				if i, ok := v.(*Iface); ok {
+					return i.Val
+				}
+				return v
+			}
+			if len(vs) < nargs || len(fn.Params) != nargs || (len(vs)-nargs)%2 != 0 {
+				panic(unsupported("vLoopStep: argument list does not match %s at %s", fn.String(), pos))
+			}
+			given := map[string]Value{}
+			for i := nargs; i+1 < len(vs); i += 2 {
+				given[constStr(un(vs[i]), "phi name")] = un(vs[i+1])
+			}
+			var header *ssa.BasicBlock
+			for _, b := range fn.Blocks {
+				if _, ok := b.Instrs[0].(*ssa.Phi); !ok {
+					continue
+				}
+				for _, pr := range b.Preds {
+					if pr.Index >= b.Index {
+						header = b
+					}
+				}
+				if header != nil {
+					break
+				}
+			}
+			if header == nil {
+				panic(unsupported("vLoopStep: no loop header with phis in %s", fn.String()))
+			}
+			// values defined before the loop and used inside it are not available: refuse
+			for _, b := range fn.Blocks {
+				if b.Index >= header.Index {
+					break
+				}
+				for _, in := range b.Instrs {
+					v, ok := in.(ssa.Value)
+					if !ok || v.Referrers() == nil {
+						continue
+					}
+					for _, r := range *v.Referrers() {
+						if r.Block() != nil && r.Block().Index >= header.Index {
+							if _, isPhi := r.(*ssa.Phi); isPhi && r.Block() == header {
+								continue
+							}
+							panic(unsupported("vLoopStep: %s defines %s before the loop and uses it inside", fn.String(), v.Name()))
+						}
+					}
+				}
+			}
+			var phis []Value
+			var names []string
+			for _, in := range header.Instrs {
+				phi, ok := in.(*ssa.Phi)
+				if !ok {
+					break
+				}
+				v, ok := given[phi.Comment]
+				if !ok {
+					panic(unsupported("vLoopStep: no value given for loop variable %q of %s", phi.Comment, fn.String()))
+				}
+				phis = append(phis, v)
+				names = append(names, phi.Comment)
+			}
+			if _, ok := e.funcsSeen[fn.String()]; !ok {
+				n := 0
+				for _, b := range fn.Blocks {
+					n += len(b.Instrs)
+				}
+				e.funcsSeen[fn.String()] = n
+			}
+			nf := &Frame{fn: fn, regs: make(map[ssa.Value]Value), forks: map[ssa.Instruction]int{}, harn: false}
+			for i, p := range fn.Params {
+				nf.regs[p] = un(vs[i])
+			}
+			saved := e.H.enumFn
+			e.H.enumFn = fn
+			e.skipStopOnce = true
+			e.depth++
+			o := e.run(&nf, s, header, nil, header, phis)
+			e.depth--
+			e.H.enumFn = saved
+			e.H.loopOut = map[string]Value{}
+			switch o.k {
+			case oDead:
+				s.dead = true
+				return e.st.BVu(0, e.intw)
+			case oStop:
+				for i, n := range names {
+					e.H.loopOut[n] = o.phis[i]
+				}
+				return e.st.BVu(1, e.intw)
+			}
+			return e.st.BVu(0, e.intw)
+		},
+		"vLoopOutInt": func(e *Engine, fr *Frame, s *State, f *ssa.Function, args []Value, pos string) Value {
+			v, ok := e.H.loopOut[constStr(args[0], "phi name")]
+			if !ok {
+				panic(unsupported("vLoopOutInt: no such loop variable at %s", pos))
+			}
+			return v
+		},
+		"vLoopOutBool": func(e *Engine, fr *Frame, s *State, f *ssa.Function, args []Value, pos string) Value {
+			v, ok := e.H.loopOut[constStr(args[0], "phi name")]
+			if !ok {
+				panic(unsupported("vLoopOutBool: no such loop variable at %s", pos))
+			}
+			return v
 		},
 		"vCatch": func(e *Engine, fr *Frame, s *State, f *ssa.Function, args []Value, pos string) Value {
 			cl := args[0]
